@@ -218,7 +218,7 @@ def iskwarg_complete():
 
 
 def run(tier, seed):
-    chk = Check("C15", tier, seed, "exploration")
+    chk = Check("C15", tier, seed, "other")
     from ..kernels import c01_argfind
     from ..kernels.base import run_kernel
     for k in c01_argfind.KERNELS_C15:
